@@ -105,7 +105,7 @@ pub fn run(rep: &mut Report, tier: &str, seed: u64) {
         let opts = Opts { fragment: true, fault_pct: if pi % 6 == 5 { 100 } else { 0 }, max_stanzas: 3, allow_print: false, universal: false, probe: false, scoped_heavy: false, keywordish_names: false, static_fault: 0 };
         let program = gen_program(&mut r, &pool, &opts);
         let mut tsg = program.text.clone();
-        if pi % 3 == 1 {
+        if pi % 3 == 1 || pi % 13 == 12 {
             // a stanza that observes the extent of the whole file: the CLI must run on the file's bytes as they are
             tsg.push_str("(module) @cm {\n  node cmn\n  attr (cmn) erow = (end-row @cm), ecol = (end-column @cm), text = (source-text @cm)\n}\n");
         }
@@ -117,6 +117,8 @@ pub fn run(rep: &mut Report, tier: &str, seed: u64) {
         // (error recovery inserted a zero-width node; there is no ERROR node)
         const MISSING_ONLY: &[&str] = &["def f(:\n    pass\n", "def f(x=1:\n    pass\n", "for x in :\n    pass\n", "x = [1, 2\n", "f(1, 2\n", "class A(B:\n    pass\n", "x = {1: 2\n"];
         let src = if pi % 8 == 7 { format!("{}{}", r.pick(MISSING_ONLY), if r.chance(1, 2) { base.as_str() } else { "" }) } else if pi % 4 == 3 { python::inject_faults(&mut r, &base, 1) } else { base };
+        // blank sources still have a (module) node: the program runs on them like on any other source
+        let src = if pi % 13 == 12 { r.pick(&["", "\n", "   \n\n", "\t"]).to_string() } else { src };
         // a third of the sources do not end in a newline (or end in blanks / a carriage return)
         let src = match pi % 6 {
             1 => src.trim_end_matches('\n').to_string(),
